@@ -212,6 +212,22 @@ def r1_r2_r5(ctx):
     ctx.check("C05.R5", bool(sub), key(f, "pool-entry"), site(f), "the thread pool entry point is not self.handle", "tpool.submit(self.handle, conn)")
 
 
+def error_reply_callers(ctx, rid):
+    """util.write_error is called by Worker.handle_error only, and handle_error only from the handle() functions: a
+    handle_request (which may already have put a response head on the wire) never writes an error reply itself"""
+    repo = ctx.repo
+    callers = [(ff, c) for ff in repo.funcs() for c, q in repo.calls_in(ff) if q == "gunicorn.util.write_error"]
+    ctx.need(callers, rid + ": util.write_error has no caller")
+    for ff, c in callers:
+        ctx.check(rid, ff.qualname == BASE + ".handle_error", key(ff, "write_error-caller"), site(ff, c),
+                  "util.write_error is called from %s: an error reply written outside handle_error bypasses the `headers_sent` guard (a second response behind a started one) and the literal status/reason" % ff.short, "only handle_error")
+    for ff in repo.funcs():
+        if ff.name == "handle_request":
+            for c, q in repo.calls_in(ff):
+                if q and q.endswith(".handle_error"):
+                    ctx.bad(rid, key(ff, "handle_error-in-handle_request"), site(ff, c), "handle_request calls handle_error itself: the error reply can land behind a response head that is already on the wire")
+
+
 def accept_errors(ctx, rid):
     """a connection that the client aborts between the handshake and accept() (ECONNABORTED), and an accept() that lost the
     race against a sibling worker (EAGAIN / EWOULDBLOCK), are not errors: evaluated from the clause that catches the OSError
@@ -540,9 +556,7 @@ def r4(ctx):
         ctx.check("C05.R4", (esc in body) and (not mesg or mesg == _html.escape(mesg) or mesg.encode("latin-1") not in body), key(f, "escaped-message|" + tag), site(f),
                   "the message (which quotes client bytes) reaches the HTML page without html.escape / not as latin-1 bytes", "mesg -> html.escape, latin-1")
     # reason / status are literals at the only caller
-    callers = [(ff, c) for ff in repo.funcs() for c, q in repo.calls_in(ff) if q == "gunicorn.util.write_error"]
-    for ff, c in callers:
-        ctx.check("C05.R4", ff.qualname == BASE + ".handle_error", key(ff, "write_error-caller"), site(ff, c), "util.write_error has an unreviewed caller (reason/status might carry client text)", "only handle_error")
+    error_reply_callers(ctx, "C05.R4")
     he = ctx.fn(repo.func(BASE + ".handle_error"))
     for var in ("reason", "status_int"):
         vals = [s.ast.value for s in stores_to_name(he, _role(he, var)) if isinstance(s.ast, ast.Assign)]
